@@ -10,7 +10,7 @@ import (
 var verifProbeServer *httptest.Server
 
 // verifProbeTarget: natively the REAL performHealthCheck dials a local test
-// server whose /health handler does what verifStubProbe does under the
+// server whose /health handler does what verifClientDo does under the
 // executor: count the probe, note whether Stop had already returned, fail it.
 func verifProbeTarget() string {
 	if verifProbeServer == nil {
@@ -18,6 +18,14 @@ func verifProbeTarget() string {
 			atomic.AddInt32(&verifProbesSent, 1)
 			if atomic.LoadInt32(&verifStopReturned) == 1 {
 				atomic.StoreInt32(&verifProbeAfterStop, 1)
+			}
+			switch atomic.LoadInt32(&verifProbeMode) {
+			case 1: // hung backend: holds the probe until the client gives up
+				<-r.Context().Done()
+				return
+			case 2:
+				w.WriteHeader(http.StatusOK)
+				return
 			}
 			w.WriteHeader(http.StatusServiceUnavailable)
 		}))
